@@ -289,6 +289,19 @@ theorem C14_derived_var_needs_last_flag :
     rw [← e] at h2
     exact absurd h2 (by decide)
 
+/-- **The driver's replay of a forced schedule is a run of the model**: the configuration printed for a `dvz` line
+(`stress dvzero`: a writer inside the m-th computation of the constructor) and for a `dvw` line (`stress onupdate dvar`: a
+writer inside the OnUpdate window of the m-th subscription, hook `VerifOnUpdateWindow`) is reachable in `dvSys` from the initial
+configuration of one constructor and one writer — so `C14_derived_var` speaks about exactly these runs, and the
+line-by-line comparison with the implementation ties the model's constructor (silent registration included). -/
+theorem C14_derived_var_replay_is_run (n : Nat) (f : (Nat → Int) → Int) (trig : Nat → Bool) (inits : List Int) (m : Nat)
+    (writes : List (Nat × Int)) :
+    Reach (dvSys n f trig) (DVS.fresh (fun i => inits.getD i 0) 0, [DVT.cIdle (List.range n), DVT.idle writes])
+      (dvzReplay n f trig inits m writes) ∧
+    Reach (dvSys n f trig) (DVS.fresh (fun i => inits.getD i 0) 0, [DVT.cIdle (List.range n), DVT.idle writes])
+      (dvwReplay n f trig inits m writes) :=
+  ⟨dvzReplay_reach n f trig inits m writes, dvwReplay_reach n f trig inits m writes⟩
+
 open Hive.Gen.C14Facts in
 /-- **The constructors as they are in `variable.go`**: the subscriptions of `NewDerivedVariable1..4`, in source order,
 are regenerated from the working tree on every run (`Hive/Gen/C14_Facts.lean`): they subscribe to
@@ -614,6 +627,17 @@ theorem C14_compose_unique (base : Nat → Bool) (es : List GEdge) (hac : ∀ e 
     (hb : ∀ j, base j = true → v j = v' j) (hv : GS.localEq base es v) (hv' : GS.localEq base es v') :
     ∀ k, v k = v' k :=
   g_unique base es hac v v' hb hv hv'
+
+/-- The same for any kind of derived value (DerivedVariable of DerivedVariables, a Counter over derived variables, a
+SortedSet weighted by derived variables, …): if the defining function of node `k` only looks at lower-numbered nodes,
+the single-level quiescence theorems (`C14_derived_var`, `C14_counter_concurrent`, … — each quantifies over *arbitrary*
+writers of its inputs, hence also over the threads that recompute a derived input) determine every node from the base
+values. -/
+theorem C14_compose_unique_general {α : Type} (base : Nat → Bool) (F : Nat → (Nat → α) → α)
+    (hF : ∀ k (v v' : Nat → α), (∀ j, j < k → v j = v' j) → F k v = F k v')
+    (v v' : Nat → α) (hb : ∀ j, base j = true → v j = v' j)
+    (hv : ∀ k, base k = false → v k = F k v) (hv' : ∀ k, base k = false → v' k = F k v') : ∀ k, v k = v' k :=
+  compose_unique_general base F hF v v' hb hv hv'
 
 /-- Publication outside of the step that applies the change (reactive `set.Compute` releasing its mutex before it
 notifies) breaks it already two levels deep: `S = A \ B`, `T = DerivedSet(S)`, `A.Add(x)` ‖ `B.Add(x)`, the two reports of
